@@ -159,6 +159,31 @@ class ValDriver(Harness):
                 self.keys[self.nk] = dict(h=(pub, priv), kind=kind, val=R.pkcs8_rsa(rsa_ints()))
                 ev.update(k=self.nk, v=h(self.rsa_value(priv)))
             return ev
+        if kind in ("ed", "dsa"):
+            if kind == "ed":
+                d = TK.ED25519
+                tpriv = [(K.CKA_CLASS, K.CKO_PRIVATE_KEY), (K.CKA_KEY_TYPE, K.CKK_EC_EDWARDS), (K.CKA_TOKEN, True),
+                         (K.CKA_EC_PARAMS, d["params"]), (K.CKA_VALUE, d["d"]), (K.CKA_SIGN, True)]
+                tpub = [(K.CKA_CLASS, K.CKO_PUBLIC_KEY), (K.CKA_KEY_TYPE, K.CKK_EC_EDWARDS), (K.CKA_TOKEN, True),
+                        (K.CKA_EC_PARAMS, d["params"]), (K.CKA_EC_POINT, d["point"]), (K.CKA_VERIFY, True)]
+                ident = d["point"]
+            else:
+                d = TK.DSA1024
+                tpriv = [(K.CKA_CLASS, K.CKO_PRIVATE_KEY), (K.CKA_KEY_TYPE, K.CKK_DSA), (K.CKA_TOKEN, True),
+                         (K.CKA_PRIME, d["p"]), (K.CKA_SUBPRIME, d["q"]), (K.CKA_BASE, d["g"]), (K.CKA_VALUE, d["x"]),
+                         (K.CKA_SIGN, True)]
+                tpub = [(K.CKA_CLASS, K.CKO_PUBLIC_KEY), (K.CKA_KEY_TYPE, K.CKK_DSA), (K.CKA_TOKEN, True),
+                        (K.CKA_PRIME, d["p"]), (K.CKA_SUBPRIME, d["q"]), (K.CKA_BASE, d["g"]), (K.CKA_VALUE, d["y"]),
+                        (K.CKA_VERIFY, True)]
+                ident = d["y"]
+            rv, g = p.create_object(s, tpriv)
+            rv2, pub = p.create_object(s, tpub) if rv == 0 else (rv, 0)
+            ev = dict(e="Import", kind=kind, i=i, rv=rvname(rv or rv2), k=0, v=h(ident), ref=h(ident), kcv="", kcvref="")
+            if not (rv or rv2):
+                self.nk += 1
+                self.keys[self.nk] = dict(h=g, kind=kind, val=None, pub=pub)
+                ev["k"] = self.nk
+            return ev
         if kind in ("dh", "ec"):
             if kind == "dh":
                 d = TK.DH1024
@@ -420,6 +445,50 @@ class ValDriver(Harness):
         data = data_of(d)
         val = kk["val"]
         ev = dict(e="Crypt", mode=mode, k=k, d=d, ch=ch, len=len(data), rv="", v="", ref="", rt=False, tamper=True)
+        if mode == "eddsa":
+            e = TK.ED25519
+            rv, sig = self.run("Sign", Mech(K.CKM_EDDSA), kk["h"], data, 0)
+            ev["rv"] = rvname(rv)
+            if rv == 0:
+                ev.update(v=h(sig), ref=h(R.ed25519_sign(e["d"], data)))
+                ev["rt"] = self.verify(Mech(K.CKM_EDDSA), kk["pub"], data, sig, 0) == 0
+                ev["tamper"] = (self.verify(Mech(K.CKM_EDDSA), kk["pub"], data + b"x", sig, 0) != 0 and
+                                self.verify(Mech(K.CKM_EDDSA), kk["pub"], data, flip(sig, 3), 0) != 0 and
+                                self.verify(Mech(K.CKM_EDDSA), kk["pub"], data, flip(sig, 40), 0) != 0)
+            return ev
+        if mode == "rsa-x509":
+            pub, priv = kk["h"]
+            key = rsa_ints()
+            k = (key["n"].bit_length() + 7) // 8
+            msg = data[:k - 1]
+            rv, sig = self.run("Sign", Mech(K.CKM_RSA_X_509), priv, msg, 0)
+            ev["rv"] = rvname(rv)
+            if rv == 0:
+                ref = pow(int.from_bytes(msg, "big"), key["d"], key["n"]).to_bytes(k, "big")
+                ev.update(v=h(sig), ref=h(ref))
+                ev["rt"] = self.verify(Mech(K.CKM_RSA_X_509), pub, msg, sig, 0) == 0
+                ev["tamper"] = self.verify(Mech(K.CKM_RSA_X_509), pub, msg, flip(sig, 9), 0) != 0
+            return ev
+        if mode in ("aes-gcm2", "aes-ctr64"):
+            iv16 = IVS[2]
+            aad = b""
+            if mode == "aes-gcm2":
+                mk = lambda: Mech(K.CKM_AES_GCM, p11.gcm_params(iv16, aad, 96))
+                ref = R.gcm_encrypt(val, iv16, aad, data, 12)
+            else:
+                mk = lambda: Mech(K.CKM_AES_CTR, p11.ctr_params(64, iv16))
+                ref = R.ctr(val, iv16, 64, data)
+            rv, ct = self.run("Encrypt", mk(), kk["h"], data, ch)
+            ev["rv"] = rvname(rv)
+            if rv == 0:
+                ev.update(v=h(ct), ref=h(ref))
+                rv2, pt = self.run("Decrypt", mk(), kk["h"], ct, ch)
+                ev["rt"] = rv2 == 0 and pt == data
+                if mode == "aes-gcm2":
+                    r3, p3 = self.run("Decrypt", mk(), kk["h"], flip(ct, len(ct) - 1), ch)
+                    r4, p4 = self.run("Decrypt", mk(), kk["h"], ct[:-1], ch)
+                    ev["tamper"] = r3 != 0 and r4 != 0
+            return ev
         fam, m = mode.split("-", 1)
         if fam in ("aes", "des3") and m in ("ecb", "cbc", "cbcpad", "ctr", "gcm"):
             bs = 16 if fam == "aes" else 8
@@ -498,6 +567,19 @@ class ValDriver(Harness):
     def MRCrypt(self, mode, k, d):
         kk = self.keys[k]
         data = data_of(d)
+        if mode == "dsa-sha256":
+            dk = {k2: int.from_bytes(v2, "big") for k2, v2 in TK.DSA1024.items()}
+            dg = hashlib.sha256(data).digest()
+            ev = dict(e="RCrypt", mode=mode, k=k, d=d, rv="", refok=False, libok=False, tamper=True)
+            rv, sig = self.run("Sign", Mech(K.CKM_DSA_SHA256), kk["h"], data, 0)
+            ev["rv"] = rvname(rv)
+            if rv == 0:
+                ev["refok"] = R.dsa_verify(dk, dg, sig)
+                mine = R.dsa_sign(dk, dg, 1 + self.rng.randrange(dk["q"] - 2))
+                ev["libok"] = self.verify(Mech(K.CKM_DSA_SHA256), kk["pub"], data, mine, 0) == 0
+                ev["tamper"] = (self.verify(Mech(K.CKM_DSA_SHA256), kk["pub"], data + b"x", sig, 0) != 0 and
+                                self.verify(Mech(K.CKM_DSA_SHA256), kk["pub"], data, flip(sig, 30), 0) != 0)
+            return ev
         if mode == "ecdsa":
             # CKM_ECDSA signs a digest the caller computed; r || s
             e = TK.EC_P256
